@@ -140,6 +140,27 @@ BUNITS = {
     'Section_referringSources_b': br('Section', 'referringSources', r'std::vector<nix::Source>', True),
 }
 UNITS.update(BUNITS); UNITS.update(SUNITS)
+def filewide_rules(kind, resvar):
+    def rule(ctx, toks):
+        """std::vector<nix::T> temp = referringX(b); -> vec_EntA temp = referringX_blk(b);   RES.insert(RES.end(), temp.begin(), temp.end()) -> vec_Ent_append(RES, temp)"""
+        out = []; i = 0
+        while i < len(toks):
+            t = toks[i]
+            if t.t.startswith('vec_') and toks[i + 1].t == 'temp' and toks[i + 2].t == '=':
+                out.extend(tokenize('%svec_EntA temp = %s_blk' % (t.ws, toks[i + 3].t))); ctx.env['temp'] = ('vec_EntA', False); i += 4; fire(ctx, 'answer-value'); continue
+            if t.k == 'id' and t.t == resvar and seq_at(toks, i + 1, ['.', 'insert', '(', resvar, '.', 'end', '(', ')', ',', 'temp', '.', 'begin', '(', ')', ',', 'temp', '.', 'end', '(', ')', ')']):
+                out.extend(tokenize('%svec_Ent_append(%s, temp)' % (t.ws, resvar))); i += 22; fire(ctx, 'vector-append'); continue
+            out.append(t); i += 1
+        return out
+    return rule
+FWUNITS = {}
+for _fn, _meth, _ret, _res in (('section_filewide_arrays', 'referringDataArrays', 'DataArray', 'arrays'), ('section_filewide_tags', 'referringTags', 'Tag', 'tags'),
+                               ('section_filewide_mtags', 'referringMultiTags', 'MultiTag', 'tags'), ('section_filewide_sources', 'referringSources', 'Source', 'srcs')):
+    FWUNITS[_fn] = dict(file='src/Section.cpp', cls='Section', cls_file='include/nix/Section.hpp', classes=BCL + ['vec_EntA'], pre_rules=[filewide_rules(_meth, _res)], inherited_methods=['id', 'name', _meth + '_blk'],
+        locator=r'std::vector<nix::%s>\s+Section::%s\s*\((?=\s*\))' % (_ret, _meth),
+        region=dict(start=r'std::vector<nix::%s>\s+temp\s*=' % _ret, end=r'%s\.insert\(%s\.end\(\),\s*temp\.begin\(\),\s*temp\.end\(\)\);' % (_res, _res),
+                    params=[('Block &', 'b'), ('std::vector<nix::%s> &' % _ret, _res)]))
+UNITS.update(FWUNITS)
 BEXTRA = 'int gh_q_calls, gh_q_container, gh_parent_calls; query_kind gh_q_kind; EntFilter gh_q_filter; vec_Ent gh_answer;\n'
 EXTRA = ('SourceCont gh_cur; int gh_pops, gh_filter_calls, gh_filter_node, gh_filter_ok, gh_res_pushes, gh_res_node; size_t gh_enq; Source *gh_children; size_t gh_nchildren; int gh_children_of;\n')
 JOBS = [dict(name='source_bfs_step', bodies=['source_bfs_step'], enforce=['source_bfs_step'], replace=[], extra_c=EXTRA, loop_contracts=True,
@@ -161,6 +182,8 @@ JOBS += [dict(name='addChildrenIfNotMaxDepth', bodies=['addChildrenIfNotMaxDepth
          dict(name='file_find_root', bodies=['file_find_root'], enforce=['file_find_root'], replace=[], extra_c=SEXTRA, includes=['c20_section.h'], expect_kinds=['postcondition'], timeout=300),
          dict(name='section_bfs_step', bodies=['section_bfs_step'], enforce=['section_bfs_step'], replace=['addChildrenIfNotMaxDepth'], extra_c=SEXTRA, includes=['c20_section.h'],
               expect_kinds=['postcondition', 'precondition'], timeout=300)]
+FWX = 'int gh_fw_calls, gh_fw_block, gh_fw_kind, gh_fw_appends, gh_fw_append_serial;\n'
+JOBS += [dict(name=fn, bodies=[fn], enforce=[fn], replace=[], extra_c=BEXTRA + FWX, includes=['c20_backref.h'], expect_kinds=['postcondition'], timeout=300) for fn in FWUNITS]
 SPEC = dict(contracts=['c20_search.h', 'c20_backref.h', 'c20_section.h'], stubs=[], units=UNITS, jobs=JOBS,
             trusted_base=['CBMC 6.11.0 (C front end, --dfcc, SAT back end)', 'vlib/cxx2c.py idiom map incl. region units',
                           'ASSUMED: std::queue is first-in first-out; std::vector::push_back appends; the filter is a pure predicate; Source::sources() lists the children in index order',
